@@ -205,7 +205,8 @@ def run_par(desc, c, e, add, rng):
         return {"nontrivial": False}
     contracts.count("C20.parallel-twin-oracle")
     u_ref, u_out = np.asarray(ref[1], float)[0], np.asarray(out[1], float)[0]
-    if u_ref.shape != u_out.shape or not np.allclose(u_ref, u_out, rtol=1e-7, atol=1e-9, equal_nan=True):
+    from vf.props.c08 import RTOL
+    if u_ref.shape != u_out.shape or not np.allclose(u_ref, u_out, rtol=RTOL.get(e.name, 1e-7), atol=1e-9, equal_nan=True):
         i = int(np.nanargmax(np.abs(np.nan_to_num(u_ref) - np.nan_to_num(u_out)))) if u_ref.shape == u_out.shape else -1
         add("parallel-utilities-differ-from-inner", "n_jobs=%s backend=%s: position %d: %r (wrapper) vs %r (inner)" % (
             nj, desc["backend"], i, u_out[i] if i >= 0 else u_out.shape, u_ref[i] if i >= 0 else u_ref.shape))
